@@ -66,6 +66,8 @@ def run_e2(job):
         if final.budget["cancel"] != 0:
             break  # the run finished before step k: every moment has been covered
         first = next((i for i, s in enumerate(snaps) if s.step > state["cancel_step"]), len(snaps))
+        cpos = next(i for i, t in enumerate(final.trace) if t == "cancel")
+        eng.budget_at = lambda sn, _p=cpos: {"cancel": 0} if sn.tlen > _p else None  # the request is in the image already
         points += len(snaps) - first
         eng.mon_violations = []
         for s in snaps[first:]:
